@@ -17,7 +17,7 @@ RULE = ('generated packages in which each object has at most one re-exporter (pa
         'the generator. Distinct: (project, realised order); non-trivial: at least one object was actually moved.')
 ASSUME = ['only the single-re-exporter shape the statement describes is generated',
           'a violation is credited to the known stale-import mechanism only if it disappears when that mechanism alone is repaired (vf/mon/repairs.py) and the same order is re-run']
-DECIDING = {'moved_objects_checked': 300, 'consumer_refs_checked': 1000, 'xrefs_checked': 1000, 'base_refs_checked': 200, 'orders_run': 300,
+DECIDING = {'insider_annotations_checked': 100, 'insider_annotations_name_not_bound_by_reexporter': 50, 'moved_objects_checked': 300, 'consumer_refs_checked': 1000, 'xrefs_checked': 1000, 'base_refs_checked': 200, 'orders_run': 300,
             'negative_controls': 20}
 CPU_S = 900
 PER = 5
@@ -123,6 +123,44 @@ def _check_system(spec: project.Spec, system: Any, res: Optional[core.Res]) -> L
                     full = node2fullname(ann, g)
                     if full is None or allo.get(full) is not target:
                         out.append((f'annotation:{cons["style"]}', f'annotation {ref!r} of {g.fullName()} expands to {full!r}, not to {new}'))
+    # insiders: annotations written in the defining module, on definitions that are re-exported elsewhere
+    if spec.notes.get('insiders'):
+        import re
+        from pydoctor import epydoc2stan
+        from pydoctor.stanutils import flatten
+        from pydoctor.templatewriter import pages
+    for ins in spec.notes.get('insiders', []):
+        rmid, exported = spec.moved[ins['uid']]
+        new = f'{spec.modname(rmid)}.{exported}'
+        target = allo.get(new)
+        P = spec.modname(ins['pmid'])
+        icls, ifn = allo.get(f"{P}.{ins['cls']}"), allo.get(f"{P}.{ins['fn']}")
+        if target is None:
+            continue
+        if not isinstance(icls, model.Class) or not isinstance(ifn, model.Function):
+            out.append(('insider-not-at-exported-name', f"{P} re-exports {ins['cls']} and {ins['fn']} but documents {icls!r}, {ifn!r} there"))
+            continue
+        ok = {target.url, '#' + target.url.split('#')[-1]} if '#' in target.url else {target.url}
+        cu = ins['cu']
+        shown = [('attribute type', icls.contents.get(f't{cu}'), 1, lambda o: epydoc2stan.type2stan(o)),
+                 ('method signature', icls.contents.get(f'im{cu}'), 2, lambda o: pages.format_signature(o)),
+                 ('function signature', ifn, 2, lambda o: pages.format_signature(o))]
+        for what, o, n, fn in shown:
+            if o is None:
+                out.append(('insider-member-missing', f'{what} of the re-exported {icls.fullName()}: member not documented'))
+                continue
+            c('insider_annotations_checked')
+            if not (spec.modname(rmid) == P and exported == ins['written']):
+                c('insider_annotations_name_not_bound_by_reexporter')
+            try:
+                stan = fn(o)
+                hrefs = re.findall(r'href="([^"]+)"', flatten(stan)) if stan is not None else []
+            except Exception as e:  # noqa: BLE001
+                out.append(('insider-annotation-raises', f'{what} of {o.fullName()}: rendering raised {e!r}'))
+                continue
+            if len(hrefs) < n or any(h not in ok for h in hrefs):
+                out.append((f'insider-annotation:{what.replace(" ", "-")}', f'{what} of {o.fullName()} names {ins["written"]!r} (written in the defining module, '
+                            f'now documented as {new}): link targets {hrefs}, expected {n} x {target.url}'))
     return out
 
 
